@@ -6,12 +6,13 @@ open IV IV.Proto IV.Query
 Driver for C20.  Everything here is glue (token parser, the concrete family of opaque
 callables, printing); the functions called are the model's.
 
-  bool <bexp tokens> <val>                  -> interp,compiled,evalC(0|1|x),nonRaising
-  sel  <start> <docs> <steps>               -> identities (paths "i.j.k") of the last step ("err" = IndexError)
+  bool <bexp tokens> <val> <lower>          -> interp,compiled,evalC(0|1|x),nonRaising
+      lower = "k from=to …": str.lower as computed by the harness's interpreter (see mkEnv); every request carries one
+  sel  <start> <docs> <steps> <lower>       -> identities (paths "i.j.k") of the last step ("err" = IndexError)
       start = "doc i" | "node path" | "res" | "fn"
       docs  = "k tree…"            tree = "T name nattrs attr… nchildren tree…"   (content only: no identity is sent)
       steps = "k step…"            step = "S deep roots nq query…" | "G query" | "W entry-query" | "R" | "P" | "U query"
-  prog <docs> <k statement…>                -> see `runProg`
+  prog <docs> <k statement…> <lower>        -> see `runProg`
 -/
 
 abbrev P (α : Type) := List String → Option (α × List String)
@@ -146,12 +147,24 @@ def pCounted {α : Type} (p : P α) : P (List α) := fun ts => do
 
 /-- the concrete family of opaque callables the harness defines in Python with the same table:
 `(k + code v) % 3` = 0 → False, 1 → True, 2 → raise; code None = 0, int = |i|, str = len -/
-def opqEnv : Env := fun k v =>
+def opqCall : Nat → Val → Out := fun k v =>
   let c : Nat := match v with | .none => 0 | .int i => i.natAbs | .str s => s.length
   match (k + c) % 3 with
   | 0 => .ret false
   | 1 => .ret true
   | _ => .raise
+
+/-- the environment of one request: the opaque callables, and `str.lower` as the harness's interpreter
+computes it on the strings of this request (pairs s ↦ s.lower() for every string it changes; all other
+strings of the request are their own lower case).  Lower-casing is NOT computed here. -/
+def mkEnv (tbl : List (Str × Str)) : Env := ⟨opqCall, fun s => (tbl.lookup s).getD s⟩
+
+/-- "k from=to …" with both sides hex-encoded strings -/
+def pTable : P (List (Str × Str)) := pCounted (fun ts => match ts with
+  | t :: r => match t.splitOn "=" with
+    | [a, b] => do let a ← decStr a; let b ← decStr b; pure ((a, b), r)
+    | _ => none
+  | [] => none)
 
 def showB (b : Bool) : String := if b then "1" else "0"
 def showOut : Out → String | .ret b => showB b | .raise => "x"
@@ -167,33 +180,33 @@ inductive St where
   | result (children : List Node)
   | fn (nodes : List Node)       -- module-level select(query, nodes, …)
 
-def stepNodes (s : St) (st : Step) : Option (List Node) :=
+def stepNodes (ρ : Env) (s : St) (st : Step) : Option (List Node) :=
   match st, s with
-  | .sel deep _ qs, .entry e => selectNodes opqEnv qs e.kids deep
-  | .sel deep _ qs, .result ch => selectNodes opqEnv qs (grandchildren ch) deep
-  | .sel deep _ qs, .fn ns => selectNodes opqEnv qs ns deep
-  | .get q, .entry e => some (entryGetitem opqEnv e q)
-  | .get q, .result ch => some (resultGetitem opqEnv ch q)
-  | .whr q, .entry e => some (entryWhere opqEnv e q)
-  | .whr q, .result ch => some (resultWhere opqEnv ch q)
+  | .sel deep _ qs, .entry e => selectNodes ρ qs e.kids deep
+  | .sel deep _ qs, .result ch => selectNodes ρ qs (grandchildren ch) deep
+  | .sel deep _ qs, .fn ns => selectNodes ρ qs ns deep
+  | .get q, .entry e => some (entryGetitem ρ e q)
+  | .get q, .result ch => some (resultGetitem ρ ch q)
+  | .whr q, .entry e => some (entryWhere ρ e q)
+  | .whr q, .result ch => some (resultWhere ρ ch q)
   | .roots, .result ch => some (rootsOf ch)
   | .parents, .result ch => some (parentsOf ch)
-  | .upto q, .result ch => some (uptoOf (q.eval opqEnv) ch)
+  | .upto q, .result ch => some (uptoOf (q.eval ρ) ch)
   | _, _ => none
 
-def stepFinal (s : St) (st : Step) : Option (Option (List (List Nat))) :=
+def stepFinal (ρ : Env) (s : St) (st : Step) : Option (Option (List (List Nat))) :=
   match st, s with
-  | .sel true roots qs, .entry e => some (entryFind opqEnv e qs roots)
-  | .sel false roots qs, .entry e => some (entrySelect opqEnv e qs false roots)
-  | .sel true roots qs, .result ch => some (resultFind opqEnv ch qs roots)
-  | .sel false roots qs, .result ch => some (resultSelect opqEnv ch qs false roots)
-  | .sel deep roots qs, .fn ns => some (select opqEnv qs ns deep roots)
-  | st, s => (stepNodes s st).map (fun ns => some (ns.map Node.path))
+  | .sel true roots qs, .entry e => some (entryFind ρ e qs roots)
+  | .sel false roots qs, .entry e => some (entrySelect ρ e qs false roots)
+  | .sel true roots qs, .result ch => some (resultFind ρ ch qs roots)
+  | .sel false roots qs, .result ch => some (resultSelect ρ ch qs false roots)
+  | .sel deep roots qs, .fn ns => some (select ρ qs ns deep roots)
+  | st, s => (stepNodes ρ s st).map (fun ns => some (ns.map Node.path))
 
-def runSteps : St → List Step → String
+def runSteps (ρ : Env) : St → List Step → String
   | _, [] => "bad-op"
   | s, [st] =>
-    match stepFinal s st with
+    match stepFinal ρ s st with
     | some (some ids) => showIds ids
     | some none => "err"
     | none => "bad-op"
@@ -201,8 +214,8 @@ def runSteps : St → List Step → String
     match st with
     | .sel _ true _ => "bad-op"          -- roots only in the last step
     | _ =>
-      match st, stepNodes s st with
-      | _, some ns => runSteps (.result ns) rest
+      match st, stepNodes ρ s st with
+      | _, some ns => runSteps ρ (.result ns) rest
       | .sel .., none => "err"
       | _, none => "bad-op"
 
@@ -224,7 +237,7 @@ def startState (docs : List Tree) : List String → Option St
   TE i k path…                  truth table of e_i on the nodes with these identities
   Q a b <steps>                 a pipeline started at `a b` ("doc 0", "node 0.2.1", "res -", "fn -")
 answers of TB / TE / Q joined by ';' -/
-partial def runProg (docs : List Tree) (σ : Built) (n : Nat) (ts : List String) (acc : List String) : Option (List String) :=
+partial def runProg (ρ : Env) (docs : List Tree) (σ : Built) (n : Nat) (ts : List String) (acc : List String) : Option (List String) :=
   match n with
   | 0 => if ts.isEmpty then some acc.reverse else none
   | n + 1 =>
@@ -232,57 +245,58 @@ partial def runProg (docs : List Tree) (σ : Built) (n : Nat) (ts : List String)
     | "LB" :: r => do
       let (t, r) ← pBTerm r
       let bs ← letB σ.bs t
-      runProg docs { σ with bs := bs } n r acc
+      runProg ρ docs { σ with bs := bs } n r acc
     | "LE" :: r => do
       let (e, r) ← pEQ σ r
-      runProg docs { σ with es := σ.es ++ [e] } n r acc
+      runProg ρ docs { σ with es := σ.es ++ [e] } n r acc
     | "TB" :: r => do
       let (i, r) ← pNat r
       let (vs, r) ← pCounted pVal r
       let b ← σ.bs[i]?
-      let out := String.join (vs.map (fun v => showB (b.interp opqEnv v) ++ showB (b.compiled opqEnv v)))
-      runProg docs σ n r (out :: acc)
+      let out := String.join (vs.map (fun v => showB (b.interp ρ v) ++ showB (b.compiled ρ v)))
+      runProg ρ docs σ n r (out :: acc)
     | "TE" :: r => do
       let (i, r) ← pNat r
       let (k, r) ← pNat r
       let (ps, r) ← pMany (fun ts => match ts with | t :: r => (decPath t).map (fun p => (p, r)) | [] => none) k r
       let e ← σ.es[i]?
       let all := flatten (tops docs)
-      let cells ← ps.mapM (fun p => (all.find? (fun n => n.path == p)).map (fun n => showB (e.eval opqEnv n)))
-      runProg docs σ n r (String.join cells :: acc)
+      let cells ← ps.mapM (fun p => (all.find? (fun n => n.path == p)).map (fun n => showB (e.eval ρ n)))
+      runProg ρ docs σ n r (String.join cells :: acc)
     | "Q" :: a :: b :: r => do
       let st ← startState docs (if b = "-" then [a] else [a, b])
       let (steps, r) ← pCounted (pStep σ) r
-      runProg docs σ n r (runSteps st steps :: acc)
+      runProg ρ docs σ n r (runSteps ρ st steps :: acc)
     | _ => none
 
 def handle (fs : List String) : String :=
   match fs with
-  | ["bool", b, v] =>
-    match parseAll (pBExp {}) b, parseAll pVal v with
-    | some b, some v =>
-      ",".intercalate [showB (b.interp opqEnv v), showB (b.compiled opqEnv v), showOut (b.evalC opqEnv v),
-                       showB (b.nonRaising opqEnv v)]
-    | _, _ => "bad-op"
-  | ["sel", start, docs, steps] =>
-    match parseAll (pCounted pTree) docs, parseAll (pCounted (pStep {})) steps with
-    | some docs, some steps =>
+  | ["bool", b, v, tbl] =>
+    match parseAll (pBExp {}) b, parseAll pVal v, parseAll pTable tbl with
+    | some b, some v, some tbl =>
+      let ρ := mkEnv tbl
+      ",".intercalate [showB (b.interp ρ v), showB (b.compiled ρ v), showOut (b.evalC ρ v),
+                       showB (b.nonRaising ρ v)]
+    | _, _, _ => "bad-op"
+  | ["sel", start, docs, steps, tbl] =>
+    match parseAll (pCounted pTree) docs, parseAll (pCounted (pStep {})) steps, parseAll pTable tbl with
+    | some docs, some steps, some tbl =>
       match startState docs (toks start) with
-      | some st => runSteps st steps
+      | some st => runSteps (mkEnv tbl) st steps
       | none => "bad-op"
-    | _, _ => "bad-op"
-  | ["prog", docs, stmts] =>
-    match parseAll (pCounted pTree) docs with
-    | some docs =>
+    | _, _, _ => "bad-op"
+  | ["prog", docs, stmts, tbl] =>
+    match parseAll (pCounted pTree) docs, parseAll pTable tbl with
+    | some docs, some tbl =>
       match toks stmts with
       | k :: ts =>
         match k.toNat? with
-        | some k => match runProg docs {} k ts [] with
+        | some k => match runProg (mkEnv tbl) docs {} k ts [] with
           | some outs => ";".intercalate outs
           | none => "bad-op"
         | none => "bad-op"
       | [] => "bad-op"
-    | none => "bad-op"
+    | _, _ => "bad-op"
   | _ => "bad-op"
 
 def main : IO Unit := serve handle
